@@ -677,6 +677,10 @@ class LazyScalarIndexEndToEnd(Family):
         osh = call["shape"]
         ffs = ctx.ghost.get("forall_facts", [])
         pool = list(st.get("pool", [])) + [st["g"].n, z3.IntVal(0)]
+        if "row" in st:
+            row = st["row"]
+            ctx.prove_then_assume("late.lemma: the materialised geometry has x's rows", z3.And(osh.n == st["nb"], osh.L(row) == st["Lb"](row)),
+                                  pool=[row, row + 1, st["nb"], z3.IntVal(0)] + st["row_pool"](row), kind="lemma")
         if ffs:
             w = ffs[-1]["w"]
             r, c = z3.Int("late_r"), z3.Int("late_c")
@@ -697,7 +701,7 @@ class LazyScalarIndexEndToEnd(Family):
         ctx.assume(z3.And(-nb <= i, i < nb))
         row = wrapn(i, nb)
         cls, old, calls = stub_flat_indices(ctx)
-        st = {"g": g, "calls": calls, "pool": [row, row + 1, i, j] + row_pool(row), "row_pool": row_pool}
+        st = {"g": g, "calls": calls, "pool": [row, row + 1, i, j] + row_pool(row), "row_pool": row_pool, "nb": nb, "Lb": Lb, "row": row}
         ctx.ghost["st"], ctx.ghost["g"] = st, g
         try:
             if form == "x[i]":
